@@ -33,6 +33,7 @@ var (
 	reRWalk     = regexp.MustCompile(`Walk/(\w+)#`)
 	reRAccessor = regexp.MustCompile(`^(?:decorations|Decorations)/(\w+)#`)
 	reRHelpers  = regexp.MustCompile(`\(\*decorator\.FileRestorer\)\.(applyDecorations|applySpace|addCommentField|applyLiteral)#`)
+	reRCursor   = regexp.MustCompile(`\(\*dstutil\.Cursor\)\.|^applyList#|\(\*dstutil\.application\)\.applyList#|^dstutil\.Apply#`)
 	reRDecList  = regexp.MustCompile(`\(\*dst\.Decorations\)\.(\w+)#`)
 )
 
@@ -48,6 +49,9 @@ func replayFor(obligation string) *replaySpec {
 	}
 	if m := reRAccessor.FindStringSubmatch(obligation); m != nil {
 		return &replaySpec{"accessor", m[1], "dstutil", "dstutil_test.go.part"}
+	}
+	if reRCursor.MatchString(obligation) {
+		return &replaySpec{"cursor", "apply", "dstutil", "dstutil_test.go.part"}
 	}
 	if m := reRHelpers.FindStringSubmatch(obligation); m != nil {
 		return &replaySpec{"helpers", m[1], "decorator", "decorator_test.go.part"}
